@@ -203,7 +203,6 @@ Section AList.
     - erewrite keys_aset_present by eassumption. assumption.
     - rewrite aset_absent by assumption. rewrite map_app. cbn.
       apply aget_none_iff in E.
-      apply NoDup_app_remove_l with (l := []) || idtac.
       assert (H : NoDup (map fst l ++ [b])).
       { clear - Hnd E. induction (map fst l) as [|a t IH]; cbn.
         - constructor; [tauto|constructor].
@@ -291,7 +290,7 @@ Section Table.
     inversion Hnd as [|? ? Hn Hnd']; subst.
     destruct (rid r =? b) eqn:E.
     - inversion Hf; subst r0. unfold f at 1. rewrite Hg. f_equal; [f_equal; lia|].
-      unfold update_where. f_equal. apply map_ext_in. intros a Ha.
+      unfold update_where. f_equal. rewrite <- (map_id t) at 2. apply map_ext_in. intros a Ha.
       destruct (rid a =? b) eqn:E2; [|reflexivity].
       exfalso. apply Hn. replace (rid r) with (rid a) by lia. apply in_map. assumption.
     - f_equal. apply IH; assumption.
@@ -326,3 +325,41 @@ Section Table.
   Lemma rowcount_none : forall (p : R -> bool) l, (forall r, In r l -> p r = false) -> rowcount p l = 0.
   Proof. intros p l H. unfold rowcount. rewrite filter_none by assumption. reflexivity. Qed.
 End Table.
+
+(* ---------------------------------------------------------------------- *)
+(* What each back end has to provide (proved in LifecycleMem / LifecycleSqlite / LifecyclePeewee) *)
+
+Definition lifecycle_write (o : op) : bool :=
+  match o with
+  | CreateBucket _ _ | UpdateBucket _ _ _ _ _ _ | DeleteBucket _ => true
+  | _ => false
+  end.
+
+Record store_ok (B : backend) : Prop := mkStoreOk {
+  ok_init_inv : b_inv B (b_init B);
+  ok_init_map : b_map B (b_init B) = [];
+  ok_view : forall c b, b_view B c b = aget b (b_map B c);
+  ok_nodup : forall c, b_inv B c -> NoDup (map fst (b_map B c));
+  ok_buckets : forall c, b_step B c Buckets = (c, Ok (OBuckets (listing_of (b_map B c))));
+  ok_inv_step : forall c o, b_inv B c -> b_inv B (fst (b_step B c o));
+  ok_frame : forall c o, b_inv B c -> lifecycle_write o = false ->
+    listing_of (b_map B (fst (b_step B c o))) = listing_of (b_map B c);
+  ok_create : forall c b m, b_inv B c -> aget b (b_map B c) = None ->
+    exists c' o m', b_step B c (CreateBucket b m) = (c', Ok o) /\ stored_as m m' /\
+                    b_map B c' = b_map B c ++ [(b, (m', []))];
+  ok_update : forall c b ty cl ho na da m es, b_inv B c -> aget b (b_map B c) = Some (m, es) ->
+    nonempty ty -> nonempty cl -> nonempty ho -> nonempty na -> nonempty da ->
+    exists c' r, b_step B c (UpdateBucket b ty cl ho na da) = (c', r) /\
+      ((exists o, r = Ok o) \/
+       (r = Err ValueError /\ ty = None /\ cl = None /\ ho = None /\ na = None /\ da = None)) /\
+      b_map B c' = aset b (updated_meta ty cl ho na da m, es) (b_map B c);
+  ok_delete : forall c b v, b_inv B c -> aget b (b_map B c) = Some v ->
+    exists c' o, b_step B c (DeleteBucket b) = (c', Ok o) /\ b_map B c' = adel b (b_map B c);
+  ok_metadata : forall c b m es, b_inv B c -> aget b (b_map B c) = Some (m, es) ->
+    b_step B c (GetMetadata b) = (c, Ok (OMeta b m));
+  ok_missing_metadata : forall c b, b_inv B c -> aget b (b_map B c) = None ->
+    b_step B c (GetMetadata b) = (c, Err ValueError);
+  ok_missing_update : forall c b ty cl ho na da, b_inv B c -> aget b (b_map B c) = None ->
+    b_step B c (UpdateBucket b ty cl ho na da) = (c, Err ValueError);
+  ok_missing_delete : forall c b, b_inv B c -> aget b (b_map B c) = None ->
+    b_step B c (DeleteBucket b) = (c, Err ValueError) }.
